@@ -54,7 +54,8 @@ outer:
 		n++
 	}
 	if n == 0 {
-		g.Limits = []string{pattern, pattern}
+		// the pattern starts with a wildcard: there is no literal prefix to
+		// derive a range from, every name has to be tested
 		g.IsGlob = false
 		return g
 	}
